@@ -106,6 +106,14 @@ theorem parse_precedence {V : Type} (alg : Alg V) (env : List Char → Option V)
     parse alg env s = evalAst alg env e :=
   parse_renders alg env h
 
+/-- **precedence, concrete form**: tokenising and reducing the rendering of a tree gives the value of the tree —
+    any blank string `w`, nested parentheses where the tree needs them, negative exponents, any depth. -/
+theorem parse_render_precedence {V : Type} (alg : Alg V) (env : List Char → Option V) (w : List Char) (hw : allWs w)
+    (e : Expr) (he : LeavesOK e) (lvl : Nat) :
+    parse alg env (render w lvl e) = evalAst alg env e :=
+  parse_precedence alg env e lvl _ (render_renders w hw e lvl he)
+
+
 /-- `get_in_units(set_in_units(x, u), u) = x`. -/
 theorem set_get_inverse (vals : List K) (f : K) (hf : f ≠ 0) :
     getInUnits (setInUnits vals f) f = vals := by
@@ -580,5 +588,10 @@ example : (parseUnits dimAlg (envDim unitTable) (some "kg * m".toList)).map (·.
 -- the over-determined choice and the five-keyword choice exist
 example : (⟨some ['m'], some ['k', 'g'], some ['s'], some ['J'], none⟩ : Choice).overDetermined = true := by decide
 example : 4 < (⟨some ['m'], some ['k', 'g'], some ['s'], some ['J'], some ['C']⟩ : Choice).count := by decide
+
+-- hypotheses of `parse_render_precedence`: a tree with valid leaves, a blank string
+example : LeavesOK (.div (.name ['k', 'g']) (.pow (.name ['s']) (.num ['-', '2']))) :=
+  ⟨validName_of_b (by decide), validName_of_b (by decide), ⟨'-', ['2'], rfl, by decide, by simp [noStop, isStop], by simp [noParen]⟩⟩
+example : allWs [' ', '\t', '\n', '\r'] := by intro c hc; simp at hc; rcases hc with rfl | rfl | rfl | rfl <;> decide
 
 end Atomman.C09
